@@ -100,8 +100,14 @@ func TestVerifFlight(t *testing.T) {
 			if lead == nil {
 				select {
 				case <-started:
-				case <-time.After(5 * time.Second):
-					tr.viol("leader's loader did not start")
+				case <-time.After(2 * time.Second):
+					select {
+					case res := <-p.done:
+						tr.viol(fmt.Sprintf("C13: a Get of key %d with no load in flight returned (%d,%d) without running the loader: an earlier outcome is being served again", key, res[0], res[1]))
+					default:
+						tr.viol("C13: leader's loader did not start")
+					}
+					broken = true
 					return
 				}
 				p.leader = true
